@@ -20,6 +20,17 @@ class Role:
 
     name: Optional[str] = None
 
+    def __eq__(self, other) -> bool:
+        # Named roles are told apart by name. Unnamed ones, e.g. straight from `Roles(2)`, by which object they are.
+        if not isinstance(other, Role):
+            return NotImplemented
+        if self.name is None or other.name is None:
+            return self is other
+        return self.name == other.name
+
+    def __hash__(self) -> int:
+        return hash(self.name) if self.name is not None else hash(id(self))
+
     def __rmul__(self, num: int) -> List["Role"]:
         """# Right multiplication. Creates `num` copies of this Role."""
         if not isinstance(num, int):
